@@ -40,6 +40,9 @@ ASSUMPTIONS = [
     "decimal value of its shortest repr by up to half an ulp (>= 1): the text-level contract FixOk (hypothesis of C01_floatToStr_close "
     "/ C01_norm_reals_close) does not hold for such reprs and those theorems do not speak about them; the float-level oracle does "
     "(float(written text) == x exactly); bucket fixok-not-applicable:huge",
+    "reading with lanelet_assignment=True raises for a file in which an obstacle state has an uncertain position / orientation "
+    "(known findings C01/read(lanelet_assignment=True)/raises/<site>/uncertain-state, the C03 finding reached through C01's read "
+    "route); the same scenarios are judged on the plain open() route",
     "first_occurrence of a traffic sign, the centre line of a lanelet, TrafficLight.color and the state class name are not part of "
     "the XML format (derived on reading) and are not compared",
 ]
@@ -47,7 +50,7 @@ TRUSTED = ["harness/snapshot.py (structural snapshot through public accessors) a
 REQUIRED_BUCKETS = ["role:static", "role:dynamic", "role:environment", "role:phantom", "pred:trajectory", "pred:set",
                     "shape:rect", "shape:circ", "shape:poly", "shape:group", "state:interval", "state:region", "state:custom",
                     "init:no-acceleration", "sign:virtual", "signal:horn", "goal:lanelets", "goal:shape", "light:inactive",
-                    "stopline", "intersection", "precision:1", "precision:12", "xsd-valid", "3d", "witness:initial-extra", "traj:gaps", "traj:consecutive",
+                    "stopline", "intersection", "precision:1", "precision:12", "xsd-valid", "3d", "witness:initial-extra", "traj:gaps", "traj:consecutive", "value:int-at-decimal-site",
                     # the write / read plan: entry points, flags, reuse, failing first call
                     "plan:plain", "w-entry:xml", "w-method:scenario_only", "w-validity:True", "w-filename:path", "w-filename:default",
                     "w-overrides:yes", "w-reuse:twice", "w-reuse:fail-first", "w-reuse:other-writer-after", "w-reuse:existing-file",
@@ -263,6 +266,9 @@ def _class_of(path, kind):
 def tags_of(ctx, spec, d):
     t = ctx.tag
     t(f"precision:{d}")
+    loc = spec.get("location") or {}
+    if any(isinstance(v, int) and not isinstance(v, bool) for v in (spec["dt"], loc.get("lat"), loc.get("lon"))):
+        t("value:int-at-decimal-site")
     plan = spec.get("plan")
     if plan:
         W, Rd, B = plan["writer"], plan["reader"], plan["build"]
@@ -332,12 +338,46 @@ def tags_of(ctx, spec, d):
         t("intersection")
 
 
+def _has_uncertain_state(spec):
+    """does an obstacle of the scenario as written (after the planned history) have a state with an uncertain position (a shape)
+    or orientation (an interval)?"""
+    try:
+        sc, pps = G.build(spec)
+        G.apply_history(sc, pps, (spec.get("plan") or {}).get("history") or [], spec["scenario_id"]["country"])
+        for o in sc.static_obstacles + sc.dynamic_obstacles:
+            states = [o.initial_state]
+            p = getattr(o, "prediction", None)
+            if p is not None and hasattr(p, "trajectory"):
+                states += list(p.trajectory.state_list)
+            if any(st.is_uncertain_position or st.is_uncertain_orientation for st in states):
+                return True
+    except Exception:  # noqa
+        pass
+    return False
+
+
 def judge(ctx, spec, d, path, model=True):
     case = {"spec": spec, "precision": d}
     ctx.case({"precision": d, "spec": spec})
-    r = call(write_read, spec, path, d)
-    if r[0] == "err":
-        ctx.fail(f"C01/write-read/raises-{r[1]}", f"write->read raised {r[2]} at precision {d}", case)
+    try:
+        r = ("ok", write_read(spec, path, d))
+    except Exception as e:  # noqa: classified below
+        import traceback
+        from common import err_class
+        frames = [f.name for f in traceback.extract_tb(e.__traceback__)]
+        msg = f"{type(e).__name__}: {str(e)[:200]}"
+        site = next((f for f in ("find_obstacle_shape_lanelets", "find_obstacle_center_lanelets") if f in frames), None)
+        if site is None and "create_from_xml_node" in frames and "rotate_translate_local" in frames:
+            site = "initial_shape_lanelets"      # the lanelet assignment of the INITIAL state (static / dynamic obstacle factory)
+        assign = ((spec.get("plan") or {}).get("reader") or {}).get("method") == "open-assign"
+        if assign and site is not None and "open" in frames and _has_uncertain_state(spec):
+            # the reader's lanelet assignment cannot place a state with an uncertain position / orientation: keyed by call site,
+            # so that any other exception on the write -> read path stays a violation
+            ctx.tag("read-assign-raises:" + site)
+            ctx.fail(f"C01/read(lanelet_assignment=True)/raises/{site}/uncertain-state",
+                     f"CommonRoadFileReader.open(lanelet_assignment=True) raised {msg} in {site} at precision {d}", case)
+        else:
+            ctx.fail(f"C01/write-read/raises-{err_class(e)}", f"write->read raised {msg} at precision {d}", case)
         return None
     before, back, objs, info = r[1]
     for k, res in info["history"]:
@@ -397,6 +437,14 @@ class Reals:
         self.seen[s] = v
         return s
 
+    def raw(self, x):
+        """the repr at a site where the writer calls decimal_to_str(x) on the value AS GIVEN (no np.float64 wrapping): location,
+        geo transformation, time step size, rectangle length / width — an int is written as an int ("90", not "90.0")"""
+        import numpy as np
+        s = str(x)
+        self.seen[s] = np.float64(x)
+        return s
+
     def fix(self, d):
         """float_to_str's exponent branch: format(f, ".<d>f")"""
         return [[s, format(v, ".{}f".format(d))] for s, v in self.seen.items() if "e" in s]
@@ -414,7 +462,7 @@ def m_pt(R, p):
 def m_shape1(R, s):
     from commonroad.geometry.shape import Circle, Polygon, Rectangle
     if isinstance(s, Rectangle):
-        return {"rect": {"l": R(s.length), "w": R(s.width), "o": R(s.orientation), "c": m_pt(R, s.center)}}
+        return {"rect": {"l": R.raw(s.length), "w": R.raw(s.width), "o": R(s.orientation), "c": m_pt(R, s.center)}}
     if isinstance(s, Circle):
         return {"circ": {"r": R(s.radius), "c": m_pt(R, s.center)}}
     if isinstance(s, Polygon):
@@ -587,18 +635,18 @@ def m_location(R, loc):
     if loc is None:
         return None
     g, e = loc.geo_transformation, loc.environment
-    return {"geoNameId": int(loc.geo_name_id), "lat": R(loc.gps_latitude), "lon": R(loc.gps_longitude),
+    return {"geoNameId": int(loc.geo_name_id), "lat": R.raw(loc.gps_latitude), "lon": R.raw(loc.gps_longitude),
             "geo": None if g is None else {
-                "ref": g.geo_reference,
-                "add": None if g.x_translation is None else {"x": R(g.x_translation), "y": R(g.y_translation), "rot": R(g.z_rotation),
-                                                              "scaling": R(g.scaling)}},
+                "ref": g.geo_reference or "",
+                "add": None if g.x_translation is None else {"x": R.raw(g.x_translation), "y": R.raw(g.y_translation), "rot": R.raw(g.z_rotation),
+                                                              "scaling": R.raw(g.scaling)}},
             "env": None if e is None else {"hours": int(e.time.hours), "minutes": int(e.time.minutes), "timeOfDay": e.time_of_day.value,
                                             "weather": e.weather.value, "underground": e.underground.value}}
 
 
 def m_file(R, sc, pps, tags, eff=None):
     eff = eff or {"author": sc.author, "affiliation": sc.affiliation, "source": sc.source, "location_obj": sc.location}
-    return {"header": {"dt": R(sc.dt), "author": eff["author"], "affiliation": eff["affiliation"], "source": eff["source"],
+    return {"header": {"dt": R.raw(sc.dt), "author": eff["author"], "affiliation": eff["affiliation"], "source": eff["source"],
                        "benchmarkId": str(sc.scenario_id)},
             "location": m_location(R, eff["location_obj"]), "tags": tags, "body": m_doc(R, sc, pps)}
 
